@@ -297,6 +297,25 @@ fn unit_quat<T: Elem>(rng: &mut Rng) -> [T; 4] {
         return [two.m_mul(a).m_mul(b).m_div(n), two.m_mul(a).m_mul(c).m_div(n), two.m_mul(a).m_mul(d).m_div(n), w];
     }
 }
+/// one of the 24 axis-aligned rotations (signed permutation matrices of determinant +1): the exact
+/// quarter and half turns about the coordinate axes and the diagonal turns — the special structure
+/// (zero off-diagonal entries, entries exactly +-1) that a "fast path" keys on
+fn axis_aligned_rot<T: Mon>(rng: &mut Rng) -> [[T; 3]; 3] {
+    const PERMS: [[usize; 3]; 6] = [[0, 1, 2], [0, 2, 1], [1, 0, 2], [1, 2, 0], [2, 0, 1], [2, 1, 0]];
+    const EVEN: [bool; 6] = [true, false, false, true, true, false];
+    let pi = rng.below(6) as usize;
+    let p = PERMS[pi];
+    let mut sg = [if rng.bool() { 1i64 } else { -1 }, if rng.bool() { 1 } else { -1 }, 1];
+    // determinant = sign(perm) * product of signs must be +1
+    let prod = sg[0] * sg[1];
+    sg[2] = if EVEN[pi] { prod } else { -prod };
+    let z = T::m_int(0);
+    let mut r = [[z; 3]; 3];
+    for i in 0..3 {
+        r[i][p[i]] = T::m_int(sg[i]);
+    }
+    r
+}
 /// textbook rotation matrix of a unit quaternion (acting on column vectors)
 fn quat_rot<T: Mon>(q: [T; 4]) -> [[T; 3]; 3] {
     let [x, y, z, w] = q;
@@ -749,7 +768,7 @@ fn rigid_case<T: Elem>(sub: &mut Sub, cfg: &Config, idx: u64) {
     T::reset();
     let name = format!("rigid_inverse/{}", T::TY);
     let mut rng = Rng::for_case(&name, cfg.case_seed(), idx);
-    let r = if idx % 9 == 0 { quat_rot([T::m_int(0), T::m_int(0), T::m_int(0), T::m_int(1)]) } else { quat_rot(unit_quat::<T>(&mut rng)) };
+    let r = if idx % 9 == 0 { quat_rot([T::m_int(0), T::m_int(0), T::m_int(0), T::m_int(1)]) } else if idx % 9 <= 2 { axis_aligned_rot::<T>(&mut rng) } else { quat_rot(unit_quat::<T>(&mut rng)) };
     let t = if idx % 7 == 0 { [T::m_int(0); 3] } else { [T::entry(&mut rng), T::entry(&mut rng), T::entry(&mut rng)] };
     let one = T::m_int(1);
     let (g, truth) = trs(&r, &t, &[one, one, one]);
@@ -809,7 +828,7 @@ fn affine_case(sub: &mut Sub, cfg: &Config, idx: u64) {
     Q::reset();
     let name = "affine_inverse/Q";
     let mut rng = Rng::for_case(name, cfg.case_seed(), idx);
-    let r = if idx % 11 == 0 { quat_rot([Q::ZERO, Q::ZERO, Q::ZERO, Q::ONE]) } else { quat_rot(unit_quat::<Q>(&mut rng)) };
+    let r = if idx % 11 == 0 { quat_rot([Q::ZERO, Q::ZERO, Q::ZERO, Q::ONE]) } else if idx % 11 <= 2 { axis_aligned_rot::<Q>(&mut rng) } else { quat_rot(unit_quat::<Q>(&mut rng)) };
     let t = if idx % 7 == 0 { [Q::ZERO; 3] } else { [Q::entry(&mut rng), Q::entry(&mut rng), Q::entry(&mut rng)] };
     let s: [Q; 3] = match idx % 5 {
         0 => {
@@ -1075,7 +1094,7 @@ fn float_trs<F: Fl>(sub: &mut Sub, cfg: &Config, idx: u64) {
     Q::reset();
     let name = format!("float_inverse/trs/{}", F::NAME);
     let mut rng = Rng::for_case(&name, cfg.case_seed(), idx);
-    let r = quat_rot(unit_quat::<Q>(&mut rng));
+    let r = if idx % 8 == 5 { axis_aligned_rot::<Q>(&mut rng) } else { quat_rot(unit_quat::<Q>(&mut rng)) };
     let t = [Q::frac(rng.range_i64(-40, 40), 8), Q::frac(rng.range_i64(-40, 40), 8), Q::frac(rng.range_i64(-40, 40), 8)];
     let rigid = idx % 2 == 0;
     let dy = |rng: &mut Rng| -> Q {
